@@ -76,6 +76,7 @@ func runC19(c *engine.Ctx, tier string) {
 	noEntryDropped(c)
 	relaySerialised(c)
 	refusalsCarryTheirClass(c)
+	halfCloseKeepsRelaying(c)
 }
 
 func subPaths(c *engine.Ctx, root string) ([]*engine.Path, error) {
@@ -673,6 +674,51 @@ func refusalsCarryTheirClass(c *engine.Ctx) {
 			reported[r] = true
 			o.Fail(&engine.Violation{Key: "Server.Subscribe|typed error returned unconverted", Pos: c.P.Pos(last.Pos), Func: p.Root.Name(),
 				Msg: "Subscribe returns " + c.Render(r) + " without errors.Status(…).Err(): the client sees gRPC Unknown instead of the refusal's class"})
+		}
+	}
+}
+
+// halfCloseKeepsRelaying: C19.10 (finding F68). io.EOF from stream.Recv means the subscriber closed its SENDING
+// direction only: the handler must not end the RPC (which cancels every forwarded subscription) before the
+// subscriber's context is done, and must not answer with that EOF.
+func halfCloseKeepsRelaying(c *engine.Ctx) {
+	o := c.Custom("C19.10", "K-must(half close)", "Server.Subscribe: on the path where stream.Recv returned io.EOF the handler waits for the stream context to be done and returns nil",
+		"updates from each target are relayed to the subscriber: returning at the half-close cancels the subscriptions that were just forwarded")
+	defer o.Done(1)
+	ps, err := c.A.PathsOpt(pkgNbGnmi, engine.PathOpts{Roots: []string{"northbound/gnmi/v2.Server.Subscribe"}, Exact: true})
+	if err != nil || len(ps) == 0 {
+		o.Undecided("Server.Subscribe", fmt.Sprintf("no paths: %v", err))
+		return
+	}
+	for _, p := range ps {
+		if p.Lit != nil {
+			continue
+		}
+		eof := -1
+		for i := range p.Events {
+			if e := &p.Events[i]; e.Kind == engine.EvCond && strings.HasSuffix(e.Lit.R, "io.EOF") && e.Lit.Mask == 2 && strings.HasPrefix(e.Lit.L, "err(") {
+				eof = i
+			}
+		}
+		if eof < 0 {
+			continue
+		}
+		last := &p.Events[len(p.Events)-1]
+		if last.Kind != engine.EvReturn {
+			continue
+		}
+		o.Site(c.P.Pos(p.Events[eof].Pos) + " half-close path")
+		o.Eval(1)
+		waited := false
+		for i := eof; i < len(p.Events); i++ {
+			if e := &p.Events[i]; e.Kind == engine.EvRecv && strings.Contains(e.Chan, "Context()") && strings.Contains(e.Chan, "Done()") {
+				waited = true
+			}
+		}
+		if !waited || len(last.Results) != 1 || last.Results[0] != "nil" {
+			o.Fail(&engine.Violation{Key: "Server.Subscribe|half-close ends the subscription", Pos: c.P.Pos(last.Pos), Func: p.Root.Name(),
+				Msg: fmt.Sprintf("after io.EOF from Recv (the subscriber closed its sending direction) the handler returns %v without waiting for the stream context: the RPC ends and the forwarded subscriptions are cancelled", last.Results)})
+			return
 		}
 	}
 }
